@@ -115,6 +115,7 @@ Proof.
   rewrite <- (combine4_fst xpos ypos ivar inmask L1 L2 L3) at 1. fold T.
   apply (opt_all_map_eval F) with (l := l); [exact E|].
   intros [[[xr yr] wr] mr] res yf _ HF. simpl. unfold ts_eval_row. simpl.
+  replace (match xy_func f with Some g => g | None => f end) with f by (destruct f; reflexivity).
   unfold F in HF. rewrite func_fit_eq_ref in HF. rewrite jump_args_consistent.
   pose proof (func_fit_eval _ _ _ _ _ _ _ HF Hf Hn) as HE. rewrite map_map in HE. exact HE.
 Qed.
@@ -149,3 +150,110 @@ Proof.
   - apply Q.min_glb; [apply Q.le_max_r | unfold Qle; simpl; lia].
   - apply Q.le_min_r.
 Qed.
+
+(* ------------------------------------------------------------------ TraceSet.__init__ as the source writes it *)
+(* tempivar = invvar * inmask (expression from the source) is the reference weight vector *)
+Lemma tempivar_gen_is_mask_w iv m : tempivar_gen iv m = mask_w iv m.
+Proof. reflexivity. Qed.
+
+(* the rejection loop `while (not qdone) and (iIter <= maxiter)` around func_fit / djs_reject-without-criteria runs its
+   body exactly once when maxiter >= 0: one weighted fit, nothing rejected *)
+Lemma fit_loop_single fit y tw maxiter mask0 : (0 <= maxiter)%Z ->
+  fit_loop (Z.to_nat (maxiter + 2)) fit y tw maxiter g_iiter0 g_qdone0 mask0 None
+  = match fit tw with Some ry => Some (fst ry, snd ry, repeat true (length y)) | None => None end.
+Proof.
+  intros H. replace (Z.to_nat (maxiter + 2)) with (S (S (Z.to_nat maxiter))) by lia.
+  cbn [fit_loop]. unfold g_loop_continue at 1. unfold g_iiter0, g_qdone0.
+  replace (Z.leb 0 maxiter) with true by (symmetry; apply Z.leb_le; exact H). cbn [negb andb].
+  unfold g_fit_weight. destruct (fit tw) as [ry|]; [|reflexivity].
+  unfold reject_nocrit. unfold g_loop_continue. cbn [negb andb]. reflexivity.
+Qed.
+
+(* a negative maxiter never enters the loop: `ycurfit` is unbound and the constructor raises *)
+Lemma fit_loop_negative fuel fit y tw maxiter mask0 : (maxiter < 0)%Z ->
+  fit_loop fuel fit y tw maxiter g_iiter0 g_qdone0 mask0 None = None.
+Proof.
+  intros H. destruct fuel; cbn [fit_loop]; unfold g_loop_continue, g_iiter0, g_qdone0;
+    replace (Z.leb 0 maxiter) with false by (symmetry; apply Z.leb_gt; exact H); reflexivity.
+Qed.
+
+Lemma opt_all_decorate {T A B C : Type} (F : T -> option (A * B)) (M : T -> C) (G : T -> option (A * B * C)) :
+  (forall t, G t = match F t with Some ry => Some (fst ry, snd ry, M t) | None => None end) ->
+  forall ts,
+  match opt_all (map F ts) with
+  | Some l => exists l', opt_all (map G ts) = Some l' /\ map (fun r => fst (fst r)) l' = map fst l /\
+                         map (fun r => snd (fst r)) l' = map snd l /\ map snd l' = map M ts
+  | None => opt_all (map G ts) = None
+  end.
+Proof.
+  intros HG. induction ts as [|t ts IH]; cbn [map opt_all].
+  - exists []. repeat split.
+  - rewrite HG. destruct (F t) as [ry|]; [|reflexivity].
+    destruct (opt_all (map F ts)) as [l|].
+    + destruct IH as [l' [E [E1 [E2 E3]]]]. rewrite E. eexists. split; [reflexivity|].
+      cbn [map fst snd]. rewrite E1, E2, E3. repeat split.
+    + rewrite IH. reflexivity.
+Qed.
+
+(* with every keyword given and maxiter >= 0, the constructor of the source (defaults, tempivar, rejection loop) is the
+   reference form ts_fit (one weighted fit per trace with weights invvar*inmask) and outmask is all True *)
+Theorem ts_fit_src_is_ref f ncoeff maxiter oxmin oxmax j xpos ypos ivar inmask : (0 <= maxiter)%Z ->
+  ts_fit_src (Some f) (Some ncoeff) (Some maxiter) oxmin oxmax j xpos ypos (Some ivar) (Some inmask)
+  = match ts_fit f ncoeff oxmin oxmax j xpos ypos ivar inmask with
+    | Some (t, yfit) =>
+        Some (t, yfit, map (fun q : vec * vec * vec * list bool => repeat true (length (snd (fst (fst q)))))
+                           (combine (combine (combine xpos ypos) ivar) inmask))
+    | None => None
+    end.
+Proof.
+  intros Hm. unfold ts_fit_src, ts_fit.
+  change (extremum_of g_xmin_default xpos) with (mat_min xpos). change (extremum_of g_xmax_default xpos) with (mat_max xpos).
+  set (xmin := match oxmin with Some v => v | None => mat_min xpos end).
+  set (xmax := match oxmax with Some v => v | None => mat_max xpos end).
+  set (T := combine (combine (combine xpos ypos) ivar) inmask).
+  match goal with |- match opt_all (map ?G0 T) with _ => _ end = match match opt_all (map ?F0 T) with _ => _ end with _ => _ end =>
+    set (G := G0); set (F := F0) end.
+  pose proof (opt_all_decorate F (fun q : vec * vec * vec * list bool => repeat true (length (snd (fst (fst q))))) G) as D.
+  assert (HG : forall t, G t = match F t with Some ry => Some (fst ry, snd ry, repeat true (length (snd (fst (fst t))))) | None => None end).
+  { intros [[[xr yr] wr] mr]. unfold G, F. rewrite fit_loop_single by exact Hm. rewrite tempivar_gen_is_mask_w. reflexivity. }
+  specialize (D HG T).
+  destruct (opt_all (map F T)) as [l|].
+  - destruct D as [l' [E [E1 [E2 E3]]]]. rewrite E, E1, E2, E3. reflexivity.
+  - rewrite D. reflexivity.
+Qed.
+
+(* absent keywords mean func='legendre', ncoeff=3, maxiter=10, invvar=1, inmask=True (read from the source) *)
+Theorem ts_fit_src_defaults oxmin oxmax j xpos ypos :
+  ts_fit_src None None None oxmin oxmax j xpos ypos None None
+  = ts_fit_src (Some Legendre) (Some 3%nat) (Some 10%Z) oxmin oxmax j xpos ypos
+               (Some (map (map (fun _ => 1)) xpos)) (Some (map (map (fun _ => true)) xpos)).
+Proof. reflexivity. Qed.
+
+(* fit -> evaluate consistency for the constructor as the source writes it (any maxiter >= 0, any inmask / invvar) *)
+Theorem traceset_src_fit_eval_consistent f ncoeff maxiter oxmin oxmax j xpos ypos ivar inmask t yfit om :
+  ts_fit_src (Some f) (Some ncoeff) (Some maxiter) oxmin oxmax j xpos ypos (Some ivar) (Some inmask) = Some (t, yfit, om) ->
+  (0 <= maxiter)%Z -> f <> ChebSplit -> (1 <= ncoeff)%nat ->
+  length ypos = length xpos -> length ivar = length xpos -> length inmask = length xpos ->
+  (exists ys, ts_xy t (Some xpos) false = Some (xpos, ys) /\ meq ys yfit) /\
+  Forall (Forall (fun b => b = true)) om.
+Proof.
+  intros H Hm Hf Hn L1 L2 L3. rewrite ts_fit_src_is_ref in H by exact Hm.
+  destruct (ts_fit f ncoeff oxmin oxmax j xpos ypos ivar inmask) as [[t0 y0]|] eqn:E; [|discriminate].
+  inversion H; subst t0 y0 om; clear H. split.
+  - exact (traceset_fit_eval_consistent _ _ _ _ _ _ _ _ _ _ _ E Hf Hn L1 L2 L3).
+  - apply Forall_forall. intros r Hr. apply in_map_iff in Hr. destruct Hr as [q [Eq _]]. subst r.
+    apply Forall_forall. intros b Hb. apply repeat_spec in Hb. exact Hb.
+Qed.
+
+(* ------------------------------------------------------------------ function tables and order guards *)
+Lemma fit_func_is_name f : fit_func f = f.
+Proof. destruct f; reflexivity. Qed.
+Lemma xy_func_is_name f : xy_func f = match f with ChebSplit => None | _ => Some f end.
+Proof. destruct f; reflexivity. Qed.
+Lemma min_order_is_spec f : min_order f = min_order_spec f.
+Proof. destruct f; reflexivity. Qed.
+(* a basis call answers iff m >= the documented minimum order, with one row per order and one column per abscissa *)
+Lemma basis_call_spec f m xs :
+  basis_call f m xs = if Nat.ltb m (min_order_spec f) then None
+                      else Some (map (fun k => map (basis f k) xs) (seq 0 m)).
+Proof. unfold basis_call. rewrite min_order_is_spec. reflexivity. Qed.
